@@ -485,6 +485,7 @@ func (sn *symlinkNode) setMode(mode fs.FileMode, u avfs.UserReader) bool {
 	return false
 }
 
+// size returns the size of the symbolic link : the length of its target.
 func (sn *symlinkNode) size() int64 {
-	return 1
+	return int64(len(sn.link))
 }
